@@ -64,6 +64,10 @@ struct DescT
     std::function<void(Obj&, const Bytes&)> dataSetter;
     std::vector<std::pair<int, std::function<bool(size_t, uint64_t&)>>> dataEffects;
     size_t maxData{0};
+    int lengthCell{-1};  // the cell that holds the data length (prior images: half of them get a length consistent with the data area)
+    // capture-module / interface status: setData of the length-prefixed variable part derived from `value`; applies it and checks
+    // that every getter of the variable part returns exactly what was supplied (the raw layout is C12's and C13's business)
+    std::function<Verdict(Obj&, uint64_t value)> varSetter;
     // Packet only: replaces the payload by one derived from `value` and returns what `data` must read afterwards
     std::function<Bytes(Obj&, uint64_t value)> payloadSetter;
     std::function<Obj(const Bytes& image)> fromImage;  // object whose raw header bytes are `image` (+ optional data)
@@ -399,6 +403,7 @@ inline DescT<lib::CanPayload> descCanPayload()
         o.setData(b.empty() ? &dummy : b.data(), static_cast<uint8_t>(b.size()));
     };
     d.maxData = 64;
+    d.lengthCell = 5;
     d.dataEffects.push_back({4, [](size_t n, uint64_t& v) {
                                  bool defined = false;
                                  v = wire::canDlcFor(static_cast<uint8_t>(n), defined);
@@ -448,6 +453,7 @@ inline DescT<lib::CanFdPayload> descCanFdPayload()
         o.setData(b.empty() ? &dummy : b.data(), static_cast<uint8_t>(b.size()));
     };
     d.maxData = 64;
+    d.lengthCell = 5;
     d.dataEffects.push_back({4, [](size_t n, uint64_t& v) {
                                  bool defined = false;
                                  v = wire::canDlcFor(static_cast<uint8_t>(n), defined);
@@ -494,6 +500,7 @@ inline DescT<lib::LinPayload> descLinPayload()
         o.setData(b.empty() ? &dummy : b.data(), static_cast<uint8_t>(b.size()));
     };
     d.maxData = 40;
+    d.lengthCell = 3;
     d.dataEffects.push_back({3, [](size_t n, uint64_t& v) {
                                  v = n;
                                  return true;
@@ -532,6 +539,7 @@ inline DescT<lib::EthernetPayload> descEthernetPayload()
         o.setData(b.empty() ? &dummy : b.data(), static_cast<uint16_t>(b.size()));
     };
     d.maxData = 80;
+    d.lengthCell = 1;
     d.dataEffects.push_back({1, [](size_t n, uint64_t& v) {
                                  v = n;
                                  return true;
@@ -602,6 +610,22 @@ inline DescT<lib::CaptureModulePayload> descCmPayload()
         b.insert(b.end(), {9, 8, 7});
         return Obj(b.data(), b.size());
     };
+    d.varSetter = [](Obj& o, uint64_t v) -> Verdict {
+        // bits 0..19: four string lengths 0..31, bits 20..27 vendor length 0..255 (a third of them empty), rest: content
+        std::string str[4];
+        for (int i = 0; i < 4; ++i)
+            str[i] = fillString(static_cast<uint32_t>(v >> 32) + static_cast<uint32_t>(i), (v >> (5 * i)) & 31);
+        size_t vn = ((v >> 28) % 3 == 0) ? 0 : ((v >> 20) & 0xFF);
+        Bytes vendor = fillBytes(static_cast<uint32_t>(v >> 36), vn);
+        o.setData(str[0], str[1], str[2], str[3], vendor);
+        VF_CHECK(std::string(o.getDeviceDescription()) == str[0] && std::string(o.getSerialNumber()) == str[1] && std::string(o.getHardwareVersion()) == str[2] &&
+                     std::string(o.getSoftwareVersion()) == str[3],
+                 "CaptureModulePayload: the strings read back after setData differ from the ones written (lengths " << str[0].size() << "," << str[1].size() << ","
+                                                                                                                 << str[2].size() << "," << str[3].size() << ")");
+        VF_CHECK(o.getVendorDataLength() == vendor.size(), "CaptureModulePayload: vendor data length reads back as " << o.getVendorDataLength() << ", " << vendor.size() << " was written");
+        VF_CHECK(vendor.empty() || (o.getVendorData() && memcmp(o.getVendorData(), vendor.data(), vendor.size()) == 0), "CaptureModulePayload: vendor data read back differs");
+        return Verdict::pass();
+    };
     d.image = [](const Obj& o) { return payloadImage(o, 26); };
     d.data = [](const Obj& o) { return payloadData(o, 26); };
     d.makeDefault = [] { return Obj{}; };
@@ -639,6 +663,19 @@ inline DescT<lib::InterfacePayload> descIfPayload()
         wire::put16(b, 2);
         b.insert(b.end(), {0xAA, 0xBB});
         return Obj(b.data(), b.size());
+    };
+    d.varSetter = [](Obj& o, uint64_t v) -> Verdict {
+        size_t in = ((v >> 16) % 4 == 0) ? 0 : (v & 0x3F);
+        size_t vn = ((v >> 18) % 3 == 0) ? 0 : ((v >> 8) & 0xFF);
+        Bytes ids = fillBytes(static_cast<uint32_t>(v >> 32), in);
+        Bytes vendor = fillBytes(static_cast<uint32_t>(v >> 36), vn);
+        static const uint8_t dummy = 0;
+        o.setData(ids.empty() ? &dummy : ids.data(), static_cast<uint16_t>(ids.size()), vendor.empty() ? &dummy : vendor.data(), static_cast<uint16_t>(vendor.size()));
+        VF_CHECK(o.getStreamIdsCount() == ids.size(), "InterfacePayload: stream id count reads back as " << o.getStreamIdsCount() << ", " << ids.size() << " was written");
+        VF_CHECK(o.getVendorDataLength() == vendor.size(), "InterfacePayload: vendor data length reads back as " << o.getVendorDataLength() << ", " << vendor.size() << " was written");
+        VF_CHECK(ids.empty() || (o.getStreamIds() && memcmp(o.getStreamIds(), ids.data(), ids.size()) == 0), "InterfacePayload: stream ids read back differ");
+        VF_CHECK(vendor.empty() || (o.getVendorData() && memcmp(o.getVendorData(), vendor.data(), vendor.size()) == 0), "InterfacePayload: vendor data read back differs");
+        return Verdict::pass();
     };
     d.image = [](const Obj& o) { return payloadImage(o, 36); };
     d.data = [](const Obj& o) { return payloadData(o, 36); };
